@@ -22,13 +22,22 @@ def explore(cfg, workers=1, timeout=3600, heap="8g", simulate=None, depth=None, 
     return res, g, init
 
 
-def _features(steps):
+def _features(steps, init=None):
     """abstract features of a behaviour used to prioritise the sample of the transition cover: action names, ordered
     pairs of actions at distance <= 3, with the relation between their target slots (same slot / parent-child / copy)."""
     feats = set()
     labs = [lab for lab, _ in steps]
     for j, b in enumerate(labs):
         feats.add((b["act"], b["out"]))
+        if b["act"] in ("Copy", "Copy2") and "map" in b["args"]:
+            # what was copied: kind, deep or not, how many entities, do the members carry other names than the top entity
+            amap = b["args"]["map"]
+            keys = [int(k) for k in (amap.keys() if isinstance(amap, dict) else range(1, len(amap) + 1))]
+            top = int(b["args"]["s"])
+            pre = steps[j - 1][1] if j else init
+            names = {pre["mem"][str(k)]["name"] for k in keys if pre and str(k) in pre["mem"]} if pre else set()
+            feats.add((b["act"], "G" if top < 11 else "O" if top < 21 else "D", bool(b["args"].get("deep")), min(len(keys), 3),
+                       len(names) > 1, pre["mode"] if pre else None))
         if "gone" in b["args"]:     # a refused removal that removed nothing / part of the subtree / a whole subtree with children
             feats.add((b["act"], "gone", min(len(b["args"]["gone"]), 3)))
         for i in range(max(0, j - 3), j):
@@ -47,31 +56,47 @@ def _features(steps):
     return feats
 
 
-def make_items(g, init, prop, seed, max_paths=None, max_len=30, variants=1):
+def cover(g, init, max_len=30):
+    paths, _covered, _unreachable = graph.path_cover(g.states, g.edges, init, max_len=max_len)
+    return paths
+
+
+def make_items(g, paths, prop, seed, max_paths=None, reps=1):
+    """turn (a budgeted sample of) the transition cover into replay items; `reps` > 1 replays every behaviour again with
+    other entity classes / call styles"""
     rng = random.Random(seed)
-    paths, covered, unreachable = graph.path_cover(g.states, g.edges, init, max_len=max_len)
     if max_paths is not None and len(paths) > max_paths:
         # budgeted sample: first a greedy set cover of the behaviours' abstract features (so that rare combinations such
         # as "edit the copy after a copy" are always replayed), then a seeded random fill
+        paths = list(paths)
         rng.shuffle(paths)
-        feats = [_features([(g.edges[j][2], None) for j in p]) for p in paths]
+        feats = [_features([(g.edges[j][2], g.states[g.edges[j][1]]) for j in p], g.states[g.edges[p[0]][0]]) for p in paths]
         chosen, seen = [], set()
         order = sorted(range(len(paths)), key=lambda i: -len(feats[i]))
         for i in order:
-            if len(chosen) >= max_paths * 2 // 3:
+            if len(chosen) >= max_paths // 4:
                 break
             if feats[i] - seen:
                 chosen.append(i)
                 seen |= feats[i]
+        rare = [paths[i] for i in chosen]       # replayed three times, with different class / call-style variants
         rest = [i for i in range(len(paths)) if i not in set(chosen)]
-        chosen += rest[:max_paths - len(chosen)]
+        chosen += rest[:max(0, max_paths - 3 * len(chosen))]
         paths = [paths[i] for i in chosen]
+    else:
+        rare = []
     items = []
-    for i, p in enumerate(paths):
-        steps = [(g.edges[j][2], g.states[g.edges[j][1]]) for j in p]
-        # class / call-style variant: both parities are used for every behaviour index pattern
-        items.append({"id": i, "variant": (seed + i) % 48,
-                      "init": g.states[g.edges[p[0]][0]], "steps": steps, "prop": prop})
+    for r in (1, 2):
+        for i, p in enumerate(rare):
+            steps = [(g.edges[j][2], g.states[g.edges[j][1]]) for j in p]
+            items.append({"id": -1, "variant": (seed + i + 7 * r) % 120,
+                          "init": g.states[g.edges[p[0]][0]], "steps": steps, "prop": prop})
+    for r in range(max(1, reps)):
+        for i, p in enumerate(paths):
+            steps = [(g.edges[j][2], g.states[g.edges[j][1]]) for j in p]
+            # class / call-style variant (object class % 8, group classes % 6, call styles % 2 % 3 % 4 % 5)
+            items.append({"id": i + r * len(paths), "variant": (seed + i + 7 * r) % 120,
+                          "init": g.states[g.edges[p[0]][0]], "steps": steps, "prop": prop})
     n_edges = len({j for p in paths for j in p})
     return items, n_edges
 
@@ -89,52 +114,83 @@ def _explore_one(cfg, seed):
     return name, sim, res, g, init
 
 
-def run_cfgs(prop, cfgs, seed, max_paths=None, variants=9, side_jobs=()):
+def allocate(sizes, budget, max_reps=8):
+    """share a budget of behaviours between configurations: small transition covers are replayed completely (and again
+    with other class variants while budget is left), the rest is shared equally by the large ones.
+    Returns {name: (max_paths, reps)}."""
+    out = {}
+    left = budget
+    todo = sorted(sizes, key=lambda k: sizes[k])
+    while todo:
+        k = todo.pop(0)
+        share = left // (len(todo) + 1)
+        reps = max(1, min(max_reps, share // sizes[k])) if sizes[k] else 1
+        take = min(sizes[k], share)
+        out[k] = [take, reps]
+        left -= take * reps
+    for k in sorted(sizes, key=lambda k: sizes[k]):      # leftover: replicate complete covers, smallest first
+        while out[k][0] == sizes[k] and sizes[k] and out[k][1] < max_reps and left >= sizes[k]:
+            out[k][1] += 1
+            left -= sizes[k]
+    return {k: tuple(v) for k, v in out.items()}
+
+
+def run_cfgs(prop, cfgs, seed, max_paths=None, variants=8, side_jobs=()):
     """cfgs: list of cfg names or (cfg, {"num":…, "depth":…}) for simulation. All TLC runs (and the optional
-    `side_jobs`, callables such as the Ideal-design run) start concurrently; behaviours are replayed as they arrive.
+    `side_jobs`, callables such as the Ideal-design run) run concurrently; then the budget of behaviours
+    (max_paths per configuration on average; None = complete covers) is shared out and everything is replayed.
     Returns (violations, coverage dict, results of side_jobs)."""
     from concurrent.futures import ThreadPoolExecutor
     states = trans = 0
-    viol = []
     per_cfg = {}
     samples = []
-    total_paths = total_steps = total_edges = covered_edges = 0
     acts = {}
+    explored = []
     with ThreadPoolExecutor(max_workers=max(1, len(cfgs) + len(side_jobs))) as ex:
         futs = [ex.submit(_explore_one, cfg, seed) for cfg in cfgs]
         side = [ex.submit(job) for job in side_jobs]
         for fut in futs:
             cfg, sim, res, g, init = fut.result()
-            if sim:
-                items, n_cov = make_items(g, init, prop, seed, max_paths=None, max_len=sim["depth"] + 1, variants=variants)
-            else:
-                items, n_cov = make_items(g, init, prop, seed, max_paths=max_paths, variants=variants)
-            states += res.distinct
-            trans += res.generated
-            t1 = time.time()
-            out = pmap(replay_path, items)
-            v = [x for r in out for x in r]
-            viol += v
-            n_steps = sum(len(it["steps"]) for it in items)
-            for it in items:
-                for lab, _ in it["steps"]:
-                    acts[lab["act"]] = acts.get(lab["act"], 0) + 1
-            per_cfg[cfg] = {"tlc_distinct_states": res.distinct, "tlc_states_generated": res.generated,
-                            "tlc_depth": res.depth, "graph_edges": len(g.edges), "edges_replayed": n_cov,
-                            "paths": len(items), "steps": n_steps, "tlc_wall_s": round(res.wall_s, 1),
-                            "replay_wall_s": round(time.time() - t1, 1)}
-            total_paths += len(items)
-            total_steps += n_steps
-            total_edges += len(g.edges)
-            covered_edges += n_cov
-            if items:
-                mid = items[len(items) // 2]
-                samples.append({"cfg": cfg, "behaviour": [_short(lab) for lab, _ in mid["steps"]]})
+            explored.append((cfg, sim, res, g, cover(g, init, max_len=(sim["depth"] + 1) if sim else 30)))
         side_results = [f.result() for f in side]
+    exhaustive_graphs = {cfg: len(paths) for cfg, sim, _r, _g, paths in explored if not sim}
+    alloc = allocate(exhaustive_graphs, max_paths * len(exhaustive_graphs), variants) if max_paths is not None else {}
+    all_items, meta = [], []
+    for cfg, sim, res, g, paths in explored:
+        if sim or max_paths is None:
+            items, n_cov = make_items(g, paths, prop, seed)
+        else:
+            items, n_cov = make_items(g, paths, prop, seed, max_paths=alloc[cfg][0], reps=alloc[cfg][1])
+        for it in items:
+            it["id"] = len(all_items)
+            all_items.append(it)
+        meta.append((cfg, res, g, paths, items, n_cov))
+    t1 = time.time()
+    out = pmap(replay_path, all_items)
+    viol = [x for r in out for x in r]
+    wall = time.time() - t1
+    total_paths = total_steps = total_edges = covered_edges = 0
+    for cfg, res, g, paths, items, n_cov in meta:
+        states += res.distinct
+        trans += res.generated
+        n_steps = sum(len(it["steps"]) for it in items)
+        for it in items:
+            for lab, _ in it["steps"]:
+                acts[lab["act"]] = acts.get(lab["act"], 0) + 1
+        per_cfg[cfg] = {"tlc_distinct_states": res.distinct, "tlc_states_generated": res.generated,
+                        "tlc_depth": res.depth, "graph_edges": len(g.edges), "edges_replayed": n_cov,
+                        "cover_paths": len(paths), "paths": len(items), "steps": n_steps, "tlc_wall_s": round(res.wall_s, 1)}
+        total_paths += len(items)
+        total_steps += n_steps
+        total_edges += len(g.edges)
+        covered_edges += n_cov
+        if items:
+            mid = items[len(items) // 2]
+            samples.append({"cfg": cfg, "behaviour": [_short(lab) for lab, _ in mid["steps"]]})
     cov = {"states": states, "transitions": trans, "traces_validated_against_impl": total_paths,
            "steps_compared": total_steps, "graph_edges": total_edges, "edges_replayed": covered_edges,
            "exhaustive": covered_edges == total_edges, "actions_replayed": acts, "per_config": per_cfg,
-           "samples": samples}
+           "replay_wall_s": round(wall, 1), "samples": samples}
     return viol, cov, side_results
 
 
